@@ -24,15 +24,27 @@ def main():
     what = sys.argv[1] if len(sys.argv) > 1 else "all"
     jobs = int(sys.argv[sys.argv.index("--jobs") + 1]) if "--jobs" in sys.argv else 3
     seed = sys.argv[sys.argv.index("--seed") + 1] if "--seed" in sys.argv else "1"
+    seeds = sys.argv[sys.argv.index("--seeds") + 1].split(",") if "--seeds" in sys.argv else [seed]
     items = []
     if what in ("mutants", "all"):
         for f in sorted(glob.glob(os.path.join(ROOT, "mutants", "C*", "*.json"))):
-            items.append(("mutant", os.path.basename(os.path.dirname(f)), f, seed))
+            items += [("mutant", os.path.basename(os.path.dirname(f)), f, sd) for sd in seeds]
     if what in ("seeded", "all"):
         for f in sorted(glob.glob(os.path.join(ROOT, "seeded", "C*_*", "patch.diff"))):
-            items.append(("seeded", os.path.basename(os.path.dirname(f)).split("_")[0], f, seed))
+            items += [("seeded", os.path.basename(os.path.dirname(f)).split("_")[0], f, sd) for sd in seeds]
     with ThreadPoolExecutor(jobs) as ex:
         results = list(ex.map(run_one, items))
+    # merge the runs of one change over the seeds: caught = caught at every seed
+    merged = {}
+    for r, it in zip(results, items):
+        m = merged.setdefault(r["change"], dict(r, caught_at_seeds=[], missed_at_seeds=[], signatures=[]))
+        (m["caught_at_seeds"] if r["caught"] else m["missed_at_seeds"]).append(it[3])
+        m["signatures"] = sorted(set(m["signatures"]) | set(r["signatures"]))[:6]
+        m["caught"] = not m["missed_at_seeds"]
+        if r["note"]:
+            m["note"] = r["note"]
+    results = list(merged.values())
+    seed = ",".join(seeds)
     for kind in ("mutant", "seeded"):
         rs = [r for r in results if r["kind"] == kind]
         if not rs:
@@ -42,7 +54,7 @@ def main():
         print(kind, "caught", sum(r["caught"] for r in rs), "of", len(rs))
         for r in rs:
             if not r["caught"]:
-                print("  MISSED", r["change"], r["check_exit"], r["note"][:200])
+                print("  MISSED", r["change"], "at seeds", r["missed_at_seeds"], r["note"][:200])
 
 if __name__ == "__main__":
     main()
